@@ -615,8 +615,10 @@ class _Interp:
 
     def e_BoolOp(self, e, env):
         v = None
-        for x in e.values:
+        for i, x in enumerate(e.values):
             v = self.ev(x, env)
+            if i == len(e.values) - 1:
+                return v  # the last operand is the value of the expression whatever its truth: no decision is needed
             t = self.truth(v)
             if (isinstance(e.op, ast.And) and not t) or (isinstance(e.op, ast.Or) and t):
                 return v
@@ -3427,6 +3429,10 @@ def _tp_run(drv, TC, calc, pattern, oracle):
             if any(_opaque(k) or not isinstance(k, (int, float, str)) for k, _ in ks):
                 return NotImplemented
             return [x for _, x in sorted(ks, key=lambda kx: kx[0], reverse=bool(kwargs.get("reverse", False)))]
+        if isinstance(f, _T) and (f.path() or "") in ("operator.attrgetter", "attrgetter") and len(args) == 1 and not kwargs and isinstance(args[0], str) and args[0].isidentifier():
+            return _Fn(ast.parse(f"lambda o: o.{args[0]}", mode="eval").body, drv)  # operator.attrgetter("a") is `lambda o: o.a`
+        if isinstance(f, _T) and (f.path() or "") in ("operator.itemgetter", "itemgetter") and len(args) == 1 and not kwargs and isinstance(args[0], (int, str)):
+            return _Fn(ast.parse(f"lambda o: o[{args[0]!r}]", mode="eval").body, drv)
         if isinstance(f, _T) and (f.path() or "") in ("collections.defaultdict", "defaultdict") and len(args) == 1 and not kwargs and not isinstance(args[0], (_O, _Fn)):
             return _DefaultDict(lambda: it.call(args[0], [], {}, calc))
         if isinstance(f, _T) and (f.path() or "") in ("itertools.groupby", "groupby") and args and not isinstance(args[0], _T):
@@ -3478,6 +3484,7 @@ def _o715(chk, drv):
                 for c, t in tasks.items():
                     vals = [v for k, v in ret.items() if k is t]
                     vals = vals[0] if vals else []
+                    vals = [list(v.f.values()) if isinstance(v, _O) else v for v in vals] if isinstance(vals, list) else vals  # (a record object per value: its fields)
                     if not isinstance(vals, list) or any(not isinstance(v, (tuple, list)) for v in vals):
                         raise _Undecided(f"the throughput values of task {t.name} are {vals!r:.60}")
                     for s in batch:
@@ -4063,7 +4070,8 @@ _V_EX_CALL = "    async def __call__(self, *args, **kwargs):\n        any_task_c
 _V_LOOP_END = "                if completed:\n                    self.logger.info(\"Task [%s] is considered completed due to external event.\", self.task)\n                    break\n"
 _V_JOIN_MID = ("                        streams_timings = await asyncio.gather(*streams)\n                        for stream_timings in streams_timings:\n"
                "                            timings += stream_timings\n                        streams = []\n")
-_V_JOIN_END = "            streams_timings = await asyncio.gather(*streams)\n            for stream_timings in streams_timings:\n                timings += stream_timings\n        return timings\n"
+_V_JOIN_END = ("            if streams:\n                streams_timings = await asyncio.gather(*streams)\n                for stream_timings in streams_timings:\n"
+               "                    timings += stream_timings\n        except BaseException:\n")
 
 VARIANTS += [
     V("seed m14: a client completed by another task leaves the loop before the request in flight is sampled", "break", _D, _V_COMPLETED,
@@ -4096,7 +4104,7 @@ VARIANTS += [
     V("S5 streams joined by a loop over the awaited gather, extend instead of +=", "keep", _RN, _V_JOIN_MID,
       "                        for stream_timings in await asyncio.gather(*streams):\n                            timings.extend(stream_timings)\n                        streams = []\n"),
     V("S5 trailing streams flattened by a comprehension", "keep", _RN, _V_JOIN_END,
-      "            timings += [t for stream_timings in await asyncio.gather(*streams) for t in stream_timings]\n        return timings\n"),
+      "            if streams:\n                timings += [t for stream_timings in await asyncio.gather(*streams) for t in stream_timings]\n        except BaseException:\n"),
     V("S5 joined streams forgotten with clear()", "keep", _RN, _V_JOIN_MID, _V_JOIN_MID.replace("streams = []", "streams.clear()")),
     # O7.14: what add enqueues
     V("seed m17: the sampler does not hand the dependent timings on to the sample", "break", _D, _V_SAMPLE_TAIL, "                    percent_completed,\n                )\n            )\n        except queue.Full", "O7.14"),
